@@ -338,6 +338,20 @@ func checkC19(c C19Case, st *stats.Collector) error {
 		return nil
 	}
 	def := c.render()
+	// what this process parsed before must not matter: every other case first parses a broken sibling of the
+	// definition (a nested section cut off, or a malformed field inside the last section), whose failure is fine
+	if h := wl.Hash(c); h%2 == 0 {
+		broken := def
+		if i := strings.LastIndex(def, "\nMSG: "); i > 0 && h%4 == 0 {
+			broken = def[:i] // the last dependency is missing
+		} else {
+			broken = def + "\n]bad[ field name with [ brackets\nno_such_pkg/NoSuchType x\n"
+		}
+		func() {
+			defer func() { _ = recover() }()
+			_, _ = ros1msg.ParseMessageDefinition(c.Types[0].Pkg, []byte(broken))
+		}()
+	}
 	got, err := ros1msg.ParseMessageDefinition(c.Types[0].Pkg, []byte(def))
 	if err != nil {
 		return pk.Failf("parse-error", "well-formed definition rejected: %v\n%s", err, def)
